@@ -4,6 +4,11 @@
 import sys, re, json, glob, os
 res = {}
 for line in open(sys.argv[1]):
+    m2 = re.match(r"/verif/seeded/(\S+): (reported .*|MISSED)", line)
+    if m2:
+        rules = sorted(set(re.findall(r"C\d\d-[A-Z0-9-]+", m2.group(2))))
+        res[m2.group(1)] = ('1' if m2.group(2).startswith('reported') else '0', rules)
+        continue
     m = re.match(r"/verif/seeded/(\S+) \(own=(\w+)\) -> (.*)", line)
     if m:
         rules = sorted(set(re.findall(r"C\d\d-[A-Z0-9-]+", m.group(3))))
